@@ -137,3 +137,71 @@ def writetext(h):
 @vc('C16.iterteetext', functions=[TX + '_iterteetext'], props=['C16'], assumptions=['T7; as C15.writetext; POSIX newline handling (see module docstring)'])
 def teetext(h):
     common(h, TX + '_iterteetext', True, 'wb')
+
+
+@vc('C15.TextView', functions=[TX + 'TextView.__iter__', TX + 'TextView.__init__'], props=['C15', 'C02'],
+    assumptions=['T7: iterating a text file yields its lines one at a time (a file object is a lazy iterator); str.strip is an uninterpreted method'])
+def textview(h):
+    """fromtext: open('rb'), wrap(encoding, errors, newline=''), the header iff given, then ONE row per line -- (line,) or
+    (line.strip(strip),) -- pulled line by line as rows are requested (never read()/readlines(): C02), detach + close on every exit."""
+    for hdr_given in (True, False):
+        for strip_mode in ('false', 'none', 'chars'):
+            def body(ctx, hdr_given=hdr_given, strip_mode=strip_mode):
+                def delta(ls, x, dout):
+                    o = out_row(dout, 0)
+                    if strip_mode == 'false':
+                        cell = as_v(x)
+                    else:
+                        f = z3.Function('meth_strip_1', smt.V, smt.V, smt.V)
+                        cell = f(as_v(x), as_v(strip))
+                    ctx.oblige('TextView: one row per line: (line,)%s' % ('' if strip_mode == 'false' else ' stripped with the caller\'s strip argument'),
+                               z3.And(dout.len == 1, o.len == 1, z3.Select(o.arr, 0) == cell))
+                qn = TX + 'TextView.__iter__'
+                it = h.interp(ctx, loops={(qn, 0): LoopSpec(delta=delta, label='lines'), (qn, 1): LoopSpec(delta=delta, label='lines (stripped)')})
+                install(it)
+                lines = sym_table(ctx, 'LINES', nmin=0)
+                from pyvc.interp import SrcIter
+                li = SrcIter(lines.rows, lines.n, 'lines')
+                old = it.opaque_hook
+
+                def hook(interp, fn, args, kwargs, node):
+                    if fn.name in ('f.readlines', 'f.read'):
+                        it.trace.append((fn.name, fn.attrs.get('self')))          # the whole file at once: judged below
+                        li.pos = li.n
+                        return Seq(lines.rows, lines.n, 'list', 'Fresh')
+                    r = old(interp, fn, args, kwargs, node)
+                    if fn.name == 'io.TextIOWrapper':
+                        r.attrs['__iter__'] = li
+                    return r
+                it.opaque_hook = hook
+                ok_m = z3.Function('meth_strip_1_ok', smt.V, smt.V, z3.BoolSort())
+                a_, b_ = z3.Consts('a!s b!s', smt.V)
+                ctx.facts.append(z3.ForAll([a_, b_], ok_m(a_, b_)))        # lines are strings: .strip exists
+                src = Opaque('source', 'source')
+                enc, err = sym_cell('encoding'), sym_cell('errors')
+                header = sym_seq(ctx, 'header', 'tuple') if hdr_given else None
+                strip = False if strip_mode == 'false' else (None if strip_mode == 'none' else sym_cell('strip'))
+                if strip_mode == 'chars':
+                    ctx.assume(smt.cls(strip.t) == smt.TEXT)
+                cls = closure_of(it, TX + 'TextView')
+                view = it.call(cls, [src], dict(header=header, encoding=enc, errors=err, strip=strip))
+                ctx.oblige('TextView: constructing the view opens nothing', z3.BoolVal(len(it.trace) == 0))
+                res = run_generator(it, cls.find('__iter__')[0], [view])
+                tr = it.trace
+                names = [e[0] for e in tr]
+                if 'wrap' in names:
+                    w = [e for e in tr if e[0] == 'wrap'][0]
+                    o = [e for e in tr if e[0] == 'open']
+                    ctx.oblige('TextView: opened \'rb\', wrapped with the caller\'s encoding and errors and newline=\'\'',
+                               z3.BoolVal(len(o) == 1 and o[0][1] == 'rb' and w[2].get('encoding') is enc and w[2].get('errors') is err and w[2].get('newline') == ''))
+                ctx.oblige('TextView: the file is only iterated (no read / readlines / write)', z3.BoolVal(not any(n.startswith('f.') and n != 'f.detach' for n in names)))
+                if 'wrap' in names and ('FAILED', 'TextIOWrapper') not in tr:
+                    ctx.oblige('TextView: detach then close on every exit', z3.BoolVal('f.detach' in names and 'with-exit' in names and names.index('f.detach') < names.index('with-exit')))
+                if res.exc is not None:
+                    ctx.oblige('TextView: only I/O errors escape', z3.BoolVal(res.exc.kind == 'ExternalError'))
+                    return
+                if getattr(ctx, 'after_loop', None):
+                    pre = ctx.pre_loop_out
+                    ctx.oblige('TextView: the header first iff one is given; nothing after the last line',
+                               z3.And(pre.len == (1 if hdr_given else 0), _t(row_eq(out_row(pre, 0), header)) if hdr_given else z3.BoolVal(True), res.out.len == 0))
+            h.explore(body)
